@@ -155,9 +155,7 @@ func c37cbuild(sc c37cscn) *c37cinst {
 	in := &c37cinst{sc: sc, rt: NewRoutingTable(c37cBucketSize, c37mkid(c37localRaw)),
 		errs: make([]error, len(sc.ops)), fails: make([]string, len(sc.ops)), nearest: make([]int, len(sc.ops))}
 	for _, p := range sc.tb.pre { // no scheduler active yet: runs straight through
-		if err := in.rt.Update(p.id, "addr-"+p.name); err != nil {
-			panic("fixture: " + err.Error())
-		}
+		_ = in.rt.Update(p.id, "addr-"+p.name) // a refusal is legal; the start table is what it is
 	}
 	in.nb0 = len(in.rt.Buckets)
 	return in
@@ -326,14 +324,26 @@ func TestVerif_C37_concurrent(t *testing.T) {
 	defer r.Finish()
 	_, shim := c37cwriter(NewRoutingTable(c37cBucketSize, c37mkid(c37localRaw)))
 	r.Need(shim, "table.go is not built with sync rewritten to the vsync shim (unit needs \"instr\")")
-	pairBound, tripleBound := r.Pick(4, 6), r.Pick(1, 3)
+	pairBound, tripleBound := 4, r.Pick(1, 3)
 	r.Rule("per prepared table (bucketsize 2): every multiset of 2 and of 3 operations out of Update(p) x5 / Remove(p) x5 / NearestPeers(target,3) x2, each operation in its own real goroutine on one real RouteTable; every schedule with at most B preemptions, B iterated from 0, scheduling points before every lock operation of the table and of its buckets; the structural conditions (peer once, bucket<=size, bucket=min(cpl,last)) evaluated at every scheduling point where no writer holds the table lock and in every final state, every NearestPeers result checked for distinct peers sorted by XOR distance; states = scheduling points visited, transitions = scheduling decisions, traces = complete executions of the real code")
 	r.Assume("sequentially consistent memory; code between two lock operations runs atomically (unsynchronised accesses are the business of unit race)")
 	scs := c37cscenarios(true)
-	for _, ct := range c37ctables {
+	// the start tables are built by sequential Update calls: a start table that is already invalid is a
+	// (sequential) violation, and nothing is explored from it; one that is valid but not the intended one is
+	// explored all the same (the conditions hold from any valid start) and shows up as a class
+	badStart := map[string]bool{}
+	for ci, ct := range c37ctables {
 		in := c37cbuild(c37cscn{tb: c37cresolve(ct)})
-		r.Need(in.table() == ct.start, "fixture %s starts as %s, expected %s", ct.name, in.table(), ct.start)
-		r.Need(in.structure() == "", "fixture %s starts invalid: %s", ct.name, in.structure())
+		if v := in.structure(); v != "" {
+			badStart[ct.name] = true
+			if r.Mine(ci) && !r.IsReplay() {
+				r.Violation("concurrent:start-table:"+strings.SplitN(v, ":", 2)[0]+"@"+ct.name, fmt.Sprintf("start table %q built by sequential Update calls is invalid: %s", ct.name, v), nil)
+			}
+		} else if in.table() != ct.start {
+			r.Class("concurrent:start-table-differs")
+		} else {
+			r.Class("concurrent:start-table-as-intended")
+		}
 	}
 	var rc c37ccase
 	replay := r.ReplayCase(&rc) && rc.Unit == "concurrent"
@@ -344,6 +354,9 @@ func TestVerif_C37_concurrent(t *testing.T) {
 	npairs, ntriples := 0, 0
 	for si, sc := range scs {
 		sc := sc
+		if badStart[sc.tb.name] {
+			continue
+		}
 		if replay {
 			if rc.Table != sc.tb.name || strings.Join(rc.Threads, "|") != strings.Join(sc.names(), "|") {
 				continue
@@ -358,6 +371,7 @@ func TestVerif_C37_concurrent(t *testing.T) {
 		} else {
 			npairs++
 		}
+		prevExecs := int64(-1)
 		for bound := 0; bound <= maxBound; bound++ {
 			if r.Expired() {
 				break
@@ -423,6 +437,14 @@ func TestVerif_C37_concurrent(t *testing.T) {
 				r.Capped(fmt.Sprintf("table %q threads %v capped at preemption bound %d", sc.tb.name, sc.names(), bound))
 				break
 			}
+			if bound == maxBound && len(sc.ops) == 2 {
+				if e.Executions == prevExecs {
+					classes["concurrent:2-threads-bound-saturated"]++ // raising the bound adds no schedule: all interleavings were run
+				} else {
+					classes["concurrent:2-threads-bound-not-saturated"]++
+				}
+			}
+			prevExecs = e.Executions
 		}
 		if si == 0 {
 			r.Sample(map[string]interface{}{"table": sc.tb.name, "start": sc.tb.start, "threads": sc.names()})
